@@ -206,7 +206,11 @@ def flat(headers):
 
 def classify(kind, info):
     """Mechanism from properties of the case / history (never seeds or messages). None = unexplained."""
-    consequence = kind in ("client-stream-never-answered", "upstream-stream-not-one-client-stream") and not info.get("foreign")
+    # after the crash a body chunk is missing upstream: truncated/short bodies, a hanging or failed stream -- never foreign content
+    consequence = not info.get("foreign") and (
+        kind in ("client-stream-never-answered", "upstream-stream-not-one-client-stream", "client-stream-response-differs", "undisturbed-stream-reset-or-error-page")
+        or (kind == "origin-h2-rejects-proxy-bytes" and info.get("only_body_length_errors"))
+    )
     # (1) a peer lowered SETTINGS_INITIAL_WINDOW_SIZE after data was in flight -> stream window negative ->
     #     BufferedH2Connection.send_data slices with the negative window and hyper-h2 raises FlowControlError out of the layer
     if info.get("window_lowered") and info.get("exc_sites") == {"FlowControlError@_http_h2.py:send_data"}:
@@ -417,7 +421,8 @@ def run_case(ctx, opts):
     for conn, p in origin_h2:
         ctx.count("peer.protocol")
         if p.protocol_errors:
-            viol("origin-h2-rejects-proxy-bytes", {"errors": p.protocol_errors, "limit_log": p.limit_log, "advertised": p.advertised, "max_open_seen": p.max_open_seen})
+            viol("origin-h2-rejects-proxy-bytes", {"errors": p.protocol_errors, "limit_log": p.limit_log, "advertised": p.advertised, "max_open_seen": p.max_open_seen},
+                 {"only_body_length_errors": all(e.startswith("InvalidBodyLengthError") for e in p.protocol_errors)})
         if p.goaway is not None and p.goaway[0] != 0:
             viol("proxy-sent-goaway-to-origin", {"goaway": p.goaway})
     if topo != "h1h2":
@@ -628,7 +633,7 @@ def run_case(ctx, opts):
             if (rec["trailers"] or None) != (et or None):
                 problems.append(("trailers", rec["trailers"], et))
             if problems:
-                viol("client-stream-response-differs", {"tag": tag, "problems": problems})
+                viol("client-stream-response-differs", {"tag": tag, "problems": problems}, {"foreign": any(p_[0] != "body" for p_ in problems)})
             else:
                 answered_ok += 1
         ordered = sorted((rec["order"], k) for k, rec in cpeer.by_key.items() if rec is not None and rec["order"] is not None)
